@@ -159,6 +159,7 @@ Proof.
     destruct (d s) eqn:Dd; try discriminate.
     destruct (rcv_locked s); inversion St; subst; clear St.
     constructor; go I.
+  - (* EChunkC *) destruct (d s); try discriminate. inversion St; subst. exact I.
 Qed.
 
 Lemma runP_inv : forall P leaky evs s s', inv s -> runP P leaky evs s = Some s' -> inv s'.
@@ -281,6 +282,7 @@ Proof.
     destruct (slot s ch) eqn:Sl; inversion St; subst; clear St; go2 I NL.
   - destruct (d s) eqn:Dd; try discriminate.
     destruct (rcv_locked s); inversion St; subst; clear St. go2 I NL.
+  - destruct (d s); try discriminate. inversion St; subst. exact NL.
 Qed.
 
 Lemma runP_inv_nl : forall P evs s s', inv s -> inv_nl s -> runP P VNow evs s = Some s' -> inv_nl s'.
@@ -459,6 +461,7 @@ Proof.
   - destruct (d s) eqn:Dd; try discriminate.
     destruct (rcv_locked s) eqn:L; inversion St; subst; clear St.
     constructor; cbn; [exact (B1 _ G)|exact (B2 _ G)|exact (B3 _ G)|]. rewrite L. discriminate.
+  - destruct (d s); try discriminate. inversion St; subst. exact G.
 Qed.
 
 Lemma reachable_inv_gate : forall P seed s, reachableP P VNow seed s -> inv_gate s.
@@ -570,6 +573,7 @@ Proof.
   - destruct (d s); try discriminate. inversion St; subst; cbn; auto.
   - destruct (d s); try discriminate. destruct (slot s ch); inversion St; subst; cbn; auto.
   - destruct (d s); try discriminate. destruct (rcv_locked s); inversion St; subst; cbn; auto.
+  - destruct (d s); try discriminate. inversion St; subst; auto.
 Qed.
 
 Lemma step_id_stable : forall leaky s e s' t i, step leaky s e = Some s' -> id_of (cs s t) = Some i -> id_of (cs s' t) = Some i.
@@ -706,6 +710,7 @@ Proof.
       unfold updN in X. destruct (Nat.eqb_spec tt ch); [inversion X; subst; left; eauto | right; left; eauto].
   - destruct (d s) eqn:Dd; try discriminate. destruct (rcv_locked s); inversion St; subst; clear St. cbn in *. left.
     destruct Hm as [(uu&X)|[X|X]]; [discriminate | auto | auto].
+  - destruct (d s) eqn:Dd; try discriminate. inversion St; subst. left. rewrite Dd in Hm. exact Hm.
 Qed.
 
 Definition inv_honest (s : st) : Prop :=
@@ -750,4 +755,33 @@ Proof.
   destruct e; try (destruct F as (_ & _ & _ & F); left; exact F).
   cbn in St. destruct (cs s t); try discriminate. destruct (open_blocked s k); try discriminate.
   inversion St; subst. right. destruct k; reflexivity.
+Qed.
+
+(* runs compose *)
+Lemma run_app : forall leaky a b s s1 s2, run leaky a s = Some s1 -> run leaky b s1 = Some s2 -> run leaky (a ++ b) s = Some s2.
+Proof.
+  unfold run. induction a as [|e a IH]; cbn; intros b s s1 s2 A B.
+  - inversion A; subst; exact B.
+  - destruct (step leaky s e) eqn:E; try discriminate. eapply IH; eassumption.
+Qed.
+
+Lemma reachable_run : forall leaky seed s evs s', reachable leaky seed s -> run leaky evs s = Some s' -> reachable leaky seed s'.
+Proof. intros leaky seed s evs s' [e0 R0] R. exists (e0 ++ evs). eapply (run_app leaky); eassumption. Qed.
+
+(* a late response to an abandoned request (nobody registered under its id any more) that arrives in several chunks
+   is read and dropped without holding the dispatcher up: the response to a waiting caller sent after it is delivered *)
+Lemma delivery_after_late_multichunk : forall leaky seed s t w id m late,
+  reachable leaky seed s -> d s = DIdle -> cs s t = CWait KReq w id -> handlers s id = Some t -> m_id m = id ->
+  handlers s (m_id late) = None ->
+  exists s', run leaky ([EChunkC (m_id late); EChunkC (m_id late); ENet late; EPop] ++ [ENet m; EPop; ELock; EDeliver; ETake t]) s = Some s' /\
+             exists r, cs s' t = CDone KReq w id r /\ res_msg r = Some (S (net_n s), m).
+Proof.
+  intros leaky seed s t w id m late R Dd C Hh Mid Hl.
+  assert (P : exists s1, run leaky [EChunkC (m_id late); EChunkC (m_id late); ENet late; EPop] s = Some s1 /\
+              d s1 = DIdle /\ cs s1 = cs s /\ handlers s1 = handlers s /\ net_n s1 = S (net_n s)).
+  { unfold run. cbn. repeat (rewrite Dd; cbn). rewrite Hl. cbn. eexists. split; [reflexivity|]. cbn. auto. }
+  destruct P as (s1 & R1 & D1 & C1 & H1' & N1).
+  assert (Rs1 : reachable leaky seed s1) by (eapply reachable_run; eassumption).
+  destruct (delivery_from_idle leaky seed s1 t w id m Rs1 D1 ltac:(rewrite C1; exact C) ltac:(rewrite H1'; exact Hh) Mid) as (s' & R2 & r & Cr & Er).
+  exists s'. split; [eapply (run_app leaky); eassumption|]. exists r. split; [exact Cr|]. rewrite Er, N1. reflexivity.
 Qed.
